@@ -3,6 +3,7 @@ package props
 import (
 	"errors"
 	"fmt"
+	"math"
 	"os"
 	"os/exec"
 	"path/filepath"
@@ -70,6 +71,7 @@ func (c10) Thresholds(tier string) map[string]int64 {
 		"order:poll-before-handler-returned":    50,
 		"wait-commands":                         10,
 		"wait-fractional":                       6,
+		"waits-longer-than-the-run":             8,
 		"race-detector-enabled-children":        1,
 		"race-canary-reported":                  1,
 	}
@@ -83,7 +85,7 @@ func (c10) Thresholds(tier string) map[string]int64 {
 }
 
 func (c10) Rule() string {
-	return "all children run under the Go race detector (reports are counted from GORACE log files by the parent). Case 0 = the built-in <<wait n>> for n in {0, 0.0009, 0.0137, 0.05, 0.25, 0.5, 0.9, 1, 1.25} run in parallel runners, and case 1 = sub-millisecond and odd fractional waits (0.0009, 0.00051, 0.0011, 0.0137, 0.00999, 0.0025) 25 times each, one after the other: completion must not be observed earlier than n seconds after the call that started it (monotonic clock, lower bound only). Every other case = (a) one script with 1-5 commands between lines and sets, each command with a handler shape {" + strings.Join(c10Shapes, ", ") + "} and a completion schedule {complete on return, or complete after p in 1..5 polls} x {nil, sentinel error; for channel shapes, success is one time in three reported by closing the channel without a send}: completion is driven by the harness through a gate, so 'pending' is a logical state, not a timing; in a third of the scripts the last command is the very last statement of the dialogue (closing 0-2 enclosing blocks), so that the waiting protocol is also observed when nothing follows the command; (b) an abandon scenario: a pending command is abandoned by RestoreAt, the same command statement is executed again, and the abandoned invocation reports completion (with an error) first - the dialogue must keep waiting for the second invocation and then resume without error; (c) a real-timing run: 4 runners in parallel goroutines whose handlers sleep 0-2 ms in the bridge goroutine while the driver polls with 0-1 ms pauses. Oracle (a): every Next issued while the gate is closed returns ErrWaitingForCommandCompletion (a 10 s watchdog opens the gate if the call does not return: a call that returns anything else than 'waiting' although it was issued with the gate closed is the violation), with no store write, no probe and no handler invocation during it; after the gate opens, buffered-channel shapes must be observed by the very next Next, goroutine / unbuffered shapes within a bounded number of polls; a reported error surfaces exactly once (errors.Is sentinel) and the dialogue then resumes at the statement after the command; every executed command invoked its handler exactly once with the arguments written. Oracle (b): each runner's elements are the script's lines in order, every handler ran once, zero race reports with a ysgo frame. Non-trivial: >=1 command stayed pending for >=1 poll. Distinct by hash of script+shapes+schedules."
+	return "all children run under the Go race detector (reports are counted from GORACE log files by the parent). Case 0 = the built-in <<wait n>> for n in {0, 0.0009, 0.0137, 0.05, 0.25, 0.5, 0.9, 1, 1.25} run in parallel runners, and case 1 = sub-millisecond and odd fractional waits (0.0009, 0.00051, 0.0011, 0.0137, 0.00999, 0.0025) 25 times each, one after the other; case 0 also starts waits that are longer than any run (3*10^9 s ... 10^300 s, an infinity: beyond what a 64-bit count of nanoseconds expresses) and polls them for 300 ms: completion must not be observed earlier than n seconds after the call that started it (monotonic clock, lower bound only). Every other case = (a) one script with 1-5 commands between lines and sets, each command with a handler shape {" + strings.Join(c10Shapes, ", ") + "} and a completion schedule {complete on return, or complete after p in 1..5 polls} x {nil, sentinel error; for channel shapes, success is one time in three reported by closing the channel without a send}: completion is driven by the harness through a gate, so 'pending' is a logical state, not a timing; in a third of the scripts the last command is the very last statement of the dialogue (closing 0-2 enclosing blocks), so that the waiting protocol is also observed when nothing follows the command; (b) an abandon scenario: a pending command is abandoned by RestoreAt, the same command statement is executed again, and the abandoned invocation reports completion (with an error) first - the dialogue must keep waiting for the second invocation and then resume without error; (c) a real-timing run: 4 runners in parallel goroutines whose handlers sleep 0-2 ms in the bridge goroutine while the driver polls with 0-1 ms pauses. Oracle (a): every Next issued while the gate is closed returns ErrWaitingForCommandCompletion (a 10 s watchdog opens the gate if the call does not return: a call that returns anything else than 'waiting' although it was issued with the gate closed is the violation), with no store write, no probe and no handler invocation during it; after the gate opens, buffered-channel shapes must be observed by the very next Next, goroutine / unbuffered shapes within a bounded number of polls; a reported error surfaces exactly once (errors.Is sentinel) and the dialogue then resumes at the statement after the command; every executed command invoked its handler exactly once with the arguments written. Oracle (b): each runner's elements are the script's lines in order, every handler ran once, zero race reports with a ysgo frame. Non-trivial: >=1 command stayed pending for >=1 poll. Distinct by hash of script+shapes+schedules."
 }
 
 func (c10) Assumptions() []string {
@@ -277,6 +279,9 @@ func (p c10) Run(c *core.Ctx) {
 	}
 	if c.Idx == 0 {
 		p.waits(c)
+		if !c.Failed() {
+			p.longWaits(c)
+		}
 		return
 	}
 	if c.Idx == 1 {
@@ -951,6 +956,47 @@ func (p c10) waits(c *core.Ctx) {
 		c.Nontrivial(fmt.Sprint("wait", n))
 	}
 	c.Sample(map[string]any{"wait_lower_bound_margins": margins})
+}
+
+// longWaits: waits far longer than any run (and longer than a 64-bit count of nanoseconds can express): the wait
+// is started and polled for 300 ms; a completion observed in that time is earlier than n seconds. An error is
+// not a completion and is accepted.
+func (p c10) longWaits(c *core.Ctx) {
+	for _, w := range []struct {
+		src  string
+		need float64
+	}{
+		{"3000000000", 3e9}, {"9223372036", 9223372036}, {"9223372037", 9223372037}, {"10000000000", 1e10}, {"18446744074", 18446744074},
+		{"{1000000 * 1000000 * 1000000 * 1000000}", 1e24}, {"1" + strings.Repeat("0", 300), 1e300}, {"{1 / 0}", math.Inf(1)},
+	} {
+		script := "title: Start\n---\nbefore\n<<wait " + w.src + ">>\nafter\n===\n"
+		rr, err, pan := mon.Create(nil, "", []string{script})
+		if err != nil || pan != "" {
+			c.Violate("a script with a long wait failed to load", map[string]any{"readers": []string{script}, "error": fmt.Sprint(err), "panic": pan})
+			return
+		}
+		if o := rr.Once(0); o.Kind != mon.KLine {
+			c.Violate("want the first line, got "+o.String(), map[string]any{"readers": []string{script}})
+			return
+		}
+		start := time.Now()
+		for time.Since(start) < 300*time.Millisecond {
+			o := rr.Once(0)
+			if o.Kind == mon.KWaiting {
+				time.Sleep(2 * time.Millisecond)
+				continue
+			}
+			if o.Kind == mon.KErr {
+				c.Feature("long-wait-refused-with-an-error")
+				break
+			}
+			c.Violate(fmt.Sprintf("<<wait %s>> reported completion after %v, earlier than %g seconds", c17Label(w.src), time.Since(start), w.need), map[string]any{
+				"readers": []string{c17Label(script)}, "observed": o.String()})
+			return
+		}
+		c.Feature("wait-commands")
+		c.Feature("waits-longer-than-the-run")
+	}
 }
 
 // tinyWaits: sub-millisecond and odd fractional waits, one after the other in one runner; each is
